@@ -170,13 +170,13 @@ fn kb_row(case: &Value, w: &World) -> Vec<(String, Value, Value)> {
   let presented = vec![tok.disclosures[0].clone()];
   const EARLIEST: i64 = 1_700_000_000;
   const LATEST: i64 = 1_700_000_600;
-  let iat = match (s(&r["window"]), s(&r["iat"])) {
-    ("none_past", _) => 1_000_000_000,
-    ("none_future", _) => 4_000_000_000, // year 2096: in the future for any run of this check
-    (_, "before_earliest") => EARLIEST - 1,
-    (_, "at_earliest") => EARLIEST,
-    (_, "inside") => EARLIEST + 300,
-    (_, "at_latest") => LATEST,
+  let iat = match s(&r["iat"]) {
+    "long_past" => 1_000_000_000,
+    "far_future" => 4_000_000_000, // year 2096: in the future for any run of this check
+    "before_earliest" => EARLIEST - 1,
+    "at_earliest" => EARLIEST,
+    "inside" => EARLIEST + 300,
+    "at_latest" => LATEST,
     _ => LATEST + 1,
   };
   let hashed_over: Vec<String> = match s(&r["sd_hash"]) {
@@ -228,8 +228,11 @@ fn kb_row(case: &Value, w: &World) -> Vec<(String, Value, Value)> {
   if s(&r["method_id"]) == "holder_key" {
     o = o.jws_verifier_options(JwsVerificationOptions::new().method_id(DIDUrl::parse("did:example:holder#hkey-1").unwrap()));
   }
-  if s(&r["window"]) == "both" {
-    o = o.earliest_issuance_date(Timestamp::from_unix(EARLIEST).unwrap()).latest_issuance_date(Timestamp::from_unix(LATEST).unwrap());
+  if matches!(s(&r["window"]), "both" | "earliest_only") {
+    o = o.earliest_issuance_date(Timestamp::from_unix(EARLIEST).unwrap());
+  }
+  if matches!(s(&r["window"]), "both" | "latest_only") {
+    o = o.latest_issuance_date(Timestamp::from_unix(LATEST).unwrap());
   }
   let validator = SdJwtCredentialValidator::with_signature_verifier(EdDSAJwsVerifier::default(), SdObjectDecoder::new_with_sha256());
   let res = validator.validate_key_binding_jwt(&sd, &w.holder, &o);
